@@ -408,7 +408,10 @@ pub fn run(env: &Env) -> i32 {
                     Err(_) => false,
                 }
             };
-            if fails(&b.case) {
+            if sig.starts_with("resource:") || sig == "watchdog" {
+                // each probe may cost a full CPU limit; report unminimised
+                b.case.clone()
+            } else if fails(&b.case) {
                 minimise_case(&b.case, &mut fails, 600)
             } else {
                 harness_error(&format!("C01: violation {sig} at run {i} did not reproduce (nondeterminism leak)"));
